@@ -4,6 +4,7 @@ package harness
 // not with the library's builders — plus protocol configurations and library component constructors.
 
 import (
+	"fmt"
 	"github.com/trustbloc/sidetree-go/pkg/api/operation"
 	"github.com/trustbloc/sidetree-go/pkg/api/protocol"
 	"github.com/trustbloc/sidetree-go/pkg/versions/1_0/doccomposer"
@@ -288,4 +289,88 @@ func genOpPatches(t *rapid.T, doc map[string]interface{}, allowIetf bool, st *pr
 		out = append(out, p)
 	}
 	return out, ref
+}
+
+// nearTwins are pairs of different JSON values that sloppy canonical forms, conversions or comparisons conflate: integers
+// beyond uint64 / int64 / 2^53 / uint32, sign and fraction loss, small exponents, Unicode normal forms, C-string
+// truncation, letter case, trailing blanks, values and the strings spelling them, empty containers.
+var nearTwins = [][2]interface{}{
+	{18446744073709551616.0, 2e19}, {9223372036854775808.0, 1e19}, {1e20, 3e20}, {9007199254740992.0, 9007199254740994.0}, {4294967301.0, 5.0},
+	{-5.0, 5.0}, {1.5, 1.0}, {1e-7, 1e-8}, {0.1, 0.10000000000000002}, {1e21, 1e22}, {123456789012345680000.0, 123456789012345700000.0},
+	{"é", "é"}, {"a\u0000b", "a"}, {"\U0001f600", "�"}, {"A", "a"}, {"x ", "x"}, {" ", "\n"}, {"<&>", "\\u003c\\u0026\\u003e"},
+	{nil, "null"}, {true, "true"}, {1.0, "1"}, {[]interface{}{}, map[string]interface{}{}}, {[]interface{}{1.0}, 1.0}, {nil, false},
+}
+
+// genDeltaTwin draws one extra patch in two forms: a valid one (for the delta that is hashed / signed) and a twin that is a
+// different value (for the delta that is sent instead). The twins are what a parser that normalises while it validates
+// - filters nulls, removes duplicates, sorts, converts numbers - would make equal.
+func genDeltaTwin(t *rapid.T, enabled []string) (valid, twin map[string]interface{}, how string) {
+	has := func(a string) bool {
+		for _, e := range enabled {
+			if e == a {
+				return true
+			}
+		}
+		return false
+	}
+	var kinds []string
+	if has("remove-public-keys") || has("remove-services") {
+		kinds = append(kinds, "ids-null-for-duplicate", "ids-duplicate-dropped", "ids-null-appended", "ids-null-in-front")
+	}
+	if has("add-also-known-as") {
+		kinds = append(kinds, "uris-reordered", "uris-null-appended")
+	}
+	if has("add-services") {
+		kinds = append(kinds, "service-member-twin", "service-member-twin", "service-member-twin")
+	}
+	if has("ietf-json-patch") {
+		kinds = append(kinds, "ietf-null-for-duplicate", "ietf-value-twin")
+	}
+	if len(kinds) == 0 {
+		return nil, nil, ""
+	}
+	how = rapid.SampledFrom(kinds).Draw(t, "twinKind")
+	removeAction := "remove-public-keys"
+	if !has(removeAction) || (has("remove-services") && rapid.Bool().Draw(t, "twinRemoveServices")) {
+		removeAction = "remove-services"
+	}
+	ids := func(l ...interface{}) map[string]interface{} {
+		return map[string]interface{}{"action": removeAction, "ids": l}
+	}
+	pair := nearTwins[rapid.IntRange(0, len(nearTwins)-1).Draw(t, "twinValues")]
+	a, b := pair[0], pair[1]
+	if rapid.Bool().Draw(t, "twinSwapped") {
+		a, b = b, a
+	}
+	switch how {
+	case "ids-null-for-duplicate":
+		return ids("twin0", "twin0"), ids(nil, "twin0"), how
+	case "ids-duplicate-dropped":
+		return ids("twin0", "twin0"), ids("twin0"), how
+	case "ids-null-appended":
+		return ids("twin0"), ids("twin0", nil), how
+	case "ids-null-in-front":
+		return ids("twin0"), ids(nil, "twin0"), how
+	case "uris-reordered":
+		return map[string]interface{}{"action": "add-also-known-as", "uris": []interface{}{"https://twin.example/b", "https://twin.example/a"}},
+			map[string]interface{}{"action": "add-also-known-as", "uris": []interface{}{"https://twin.example/a", "https://twin.example/b"}}, how
+	case "uris-null-appended":
+		return map[string]interface{}{"action": "add-also-known-as", "uris": []interface{}{"https://twin.example/a"}},
+			map[string]interface{}{"action": "add-also-known-as", "uris": []interface{}{"https://twin.example/a", nil}}, how
+	case "service-member-twin":
+		svc := func(v interface{}) map[string]interface{} {
+			return map[string]interface{}{"action": "add-services", "services": []interface{}{
+				map[string]interface{}{"id": "twin0", "type": "Twin", "serviceEndpoint": "https://twin.example/", "weight": v}}}
+		}
+		return svc(a), svc(b), how + fmt.Sprintf("(%v|%v)", a, b)
+	case "ietf-null-for-duplicate":
+		op := map[string]interface{}{"op": "add", "path": "/twin", "value": "v"}
+		return map[string]interface{}{"action": "ietf-json-patch", "patches": []interface{}{op, op}},
+			map[string]interface{}{"action": "ietf-json-patch", "patches": []interface{}{nil, op}}, how
+	default:
+		op := func(v interface{}) map[string]interface{} {
+			return map[string]interface{}{"action": "ietf-json-patch", "patches": []interface{}{map[string]interface{}{"op": "add", "path": "/twin", "value": v}}}
+		}
+		return op(a), op(b), how + fmt.Sprintf("(%v|%v)", a, b)
+	}
 }
